@@ -108,16 +108,5 @@ def d5_contexts(ctx):
     ctx.decide(ok, 'R-ESC', 'D5', f, ys[0] if ys else None, 'open_array-yields-none',
                'open_array only holds the opener and yields None (no map handed out)',
                detail='open_array yields something or performs effects of its own')
-    # opener default: accessmode None -> the handle's own mode
-    d = opener.param_defaults().get('accessmode')
-    ok = isinstance(d, ast.Constant) and d.value is None
-    hit = False
-    for n in own_nodes(opener.node):
-        if isinstance(n, ast.If) and norm(n.test) == 'accessmode is None':
-            for st in n.body:
-                if isinstance(st, ast.Assign) and norm(st.targets[0]) == 'accessmode' and \
-                        norm(st.value) == 'self._accessmode':
-                    hit = True
-    ctx.decide(ok and hit, 'R-FLOW', 'D5', opener, None, 'opener-default-mode',
-               'the opener uses the handle\'s own mode when none is requested',
-               detail='default mode of the opener is not the handle mode')
+    from ._shared import opener_default_mode
+    opener_default_mode(ctx, 'D5', opener)
